@@ -491,6 +491,39 @@ def r3_asserts(text, hits):
     return text
 
 
+def r15_byte_literals(text, hits):
+    r"""R15: b"..." -> (&[0x..u8, ..]) : Verus gives a byte-string literal a length but no content; the same bytes written as an
+    array literal are known.  Purely mechanical (escapes: backslash, quote, n, r, t, 0, xNN)."""
+    out = []
+    i = 0
+    n = len(text)
+    m = mask(text)
+    esc = {'n': 10, 'r': 13, 't': 9, '0': 0, '\\': 92, '"': 34, "'": 39}
+    while i < n:
+        if text[i] == 'b' and i + 1 < n and text[i + 1] == '"' and m[i] != COMMENT and (i == 0 or (m[i - 1] == CODE and not (text[i - 1].isalnum() or text[i - 1] == '_'))):
+            j = i + 2
+            bs = []
+            while j < n and text[j] != '"':
+                if text[j] == '\\':
+                    e = text[j + 1]
+                    if e == 'x':
+                        bs.append(int(text[j + 2:j + 4], 16))
+                        j += 4
+                        continue
+                    bs.append(esc[e])
+                    j += 2
+                    continue
+                bs += list(text[j].encode('utf-8'))
+                j += 1
+            out.append('(&[%s])' % ', '.join('0x%02xu8' % b for b in bs))
+            _count(hits, 'R15.byte_literal')
+            i = j + 1
+            continue
+        out.append(text[i])
+        i += 1
+    return ''.join(out)
+
+
 # format-string literal (with quotes) -> stand-in function name; set by the template directive //@formatfn
 FORMAT_FNS = {}
 
